@@ -654,6 +654,9 @@ def all_direct(t):
     return t
 
 
+SHALLOW_UNIONS = [False]
+
+
 def gen_input(rng, case, t, depth, p_bad=0.08):
     k = t["t"]
     if k == "whole":
@@ -691,11 +694,16 @@ def gen_input(rng, case, t, depth, p_bad=0.08):
             return {"zz": 1}
         if sum(x["t"] != "none" for x in ms) > 1:
             p_bad = 0.0     # a failing first member hands content meant for it to the next one
+            if SHALLOW_UNIONS[0] and m["t"] == "ref":
+                # ... and where a member may fail because its class cannot be resolved (use before the
+                # definition, function scope), nothing but an unknown key is given
+                return {"zz": 1}
         return gen_input(rng, case, m, depth, p_bad)
     raise ValueError(k)
 
 
-def gen_use(rng, case, tgt):
+def gen_use(rng, case, tgt, risky=False):
+    SHALLOW_UNIONS[0] = risky or case.get("scope") == "function"
     depth = rng.choice([1, 2, 2, 3])
     if tgt in case["classes"]:
         inp = None
@@ -783,7 +791,7 @@ def gen_case(rng, tier="quick"):
         pos = rng.randint(1, len(prog))
         before = [op.get("def") or op.get("fn") for op in prog[:pos]]
         tgt = rng.choice(before)
-        case["prog"].insert(pos, gen_use(rng, case, tgt))
+        case["prog"].insert(pos, gen_use(rng, case, tgt, risky=True))
     return case
 
 
@@ -801,6 +809,7 @@ def shapes(maxk=2):
     }
     out = []
     rng = random.Random(17)
+    SHALLOW_UNIONS[0] = False
     keys = list(mk)
     for mode in ({}, {"future": True}, {"scope": "function"}, {"local": True}, {"kind": "dataclass"}):
         for order in (["A", "B"], ["B", "A"]):
